@@ -56,11 +56,11 @@ ADDENDA = {
  "C08": " Also: state-variable names spelled like constants, the keyword `in` and operators; seven networks whose variable names look like operators / constants / spare variables; the self-loop-free entry point under the same rewrites; unary operands of binary operators.",
  "C09": " Also: 10^6 (thorough 5*10^6) same-shape sub-formulae canonised in sequence on one thread, each against its closed form.",
  "C10": " Also: one public evaluation context re-used for successive substitutions (label in proposition and in domain position); graphs with a restricted unit set and spare variable sets; pre-computed results travelling through a result archive.",
- "C11": " Also: compositionality - for every ordered pair (A, B) of 20 operator applications over the same arguments `A & B` must be the intersection of A and B evaluated on their own (and the batch [A, B] must return both); the 3-variable menu family also with sign and observability of every essential input declared; a 196 607-node argument set; nests of two unary temporal operators against the oracle.",
- "C12": " Also: two-step histories with the two patterns and their twins; the shortcut through model_check_formula_unsafe_ex where self-loops cannot matter.",
+ "C11": " Also: compositionality - for every ordered pair (A, B) of 20 operator applications over the same arguments `A & B` must be the intersection of A and B evaluated on their own (and the batch [A, B] must return both); the 3-variable menu family also with sign and observability of every essential input declared; a 196 607-node argument set; nests of two unary temporal operators against the oracle; a 70-variable model.",
+ "C12": " Also: two-step histories with the two patterns and their twins; the shortcut through model_check_formula_unsafe_ex where self-loops cannot matter; regulator-free variables that move once next to an oscillation.",
  "C13": " Also: shift registers with 58..70 variables (> 2^53 states): EW / AW on two / three consecutive chain states against the defining equivalences and closed forms (child processes).",
  "C14": " Also: one context label in both roles across the formulae of a batch; names of the graph's spare variables as propositions; wild-cards counted across restricted scopes; a quantified sub-formula text repeated with an ill-scoped second occurrence.",
- "C15": " Also: graphs with per-variable spare counts; a sanitised result must be a proper set of the canonical context (colors(), vertices(), cardinalities, pick_singleton()).",
+ "C15": " Also: graphs with per-variable spare counts; a sanitised result must be a proper set of the canonical context (colors(), vertices(), cardinalities, pick_singleton()); graphs with 11 / 12 / 21 spare variable sets; lists of four / five with repetition patterns.",
  "C16": " Also: the result archive written to the path of the context archive; analyse_formula with a context archive that must stay untouched. Thorough: all core / unusual networks with <= 64 colours, k up to 6, path histories for every format.",
  "C17": " Also: -o naming the -e file. Thorough: every closed plain formula with <= 5 nodes and every closed extended formula with <= 3 nodes through the tool in files of 7 lines (about 90 000 executions).",
  "C18": " Also: graphs whose unit set was restricted after construction (every second colour, single colours) or perturbed by restrict_variable_in_graph.",
